@@ -28,7 +28,7 @@ def protos : List (String × Proto) := [
   ("names", OxiddModel.VarNames.proto),
   ("circ", OxiddModel.Circuit.proto),
   ("capi", OxiddModel.Ffi.proto),
-  ("capi-fixed", OxiddModel.Ffi.protoFixed)
+  ("capi-before-fix", OxiddModel.Ffi.protoBeforeFix)
 ]
 
 def main (args : List String) : IO UInt32 := do
